@@ -60,6 +60,8 @@ func runC01(c *Ctx) {
 		"the E1 prover of internal/prove (dominating branch conditions, len facts for string slicing / concatenation / strings.Repeat, φ-join, Fourier–Motzkin) is sound",
 		"SPEC constants: LM magic \"KGS!@#$%\" (MS-NLMP 3.3.1), DCC2 PBKDF2 keyLen 16 and HMAC-SHA1 (MS-Cache v2), hashcat formats \"$DCC2$%d#%s#%s\" (mode 2100) and \"hash:user\" (mode 1100)",
 	}
+	r.Explanation += crySxExplain
+	r.Assumptions = append(r.Assumptions, crySxAssume)
 	x := &c01{cry: newCry(c)}
 	x.w = prove.NewWorld(c.P)
 
